@@ -30,6 +30,15 @@ Theorem C10_write_frame : forall w path data mt w',
 Proof. exact write_file_frame. Qed.
 Print Assumptions C10_write_frame.
 
+(* saving one Manifest (truncate, dump, sign, compress, write): every regular file other than the one its own path
+   names keeps device, mtime, size and content - whether the Manifest file existed before or is created *)
+Theorem C10_save_manifest_frame : forall compress pgp_sign wmtime w l relpath sort w' l' n,
+  save_manifest compress pgp_sign wmtime w l relpath sort = Ok (w', l', n) ->
+  forall j d m s x, node w j = Some (IFile d m s x) -> ~ names w (pjoin rootdir relpath) j ->
+  node w' j = Some (IFile d m s x).
+Proof. exact save_manifest_frame. Qed.
+Print Assumptions C10_save_manifest_frame.
+
 Theorem C10_unlink_frame : forall w path w',
   unlink_file w path = Ok w' ->
   forall j dev m s x, node w j = Some (IFile dev m s x) -> node w' j = Some (IFile dev m s x).
